@@ -540,3 +540,56 @@ def no_use_before_assignment(ctx, model, prop, rule, prefixes, exact_modules=Fal
                 ctx.ob(True, nontrivial_key=("def-before-use", fi.qualname))
     ctx.analysed[f"{rule} functions checked for use-before-assignment"] = n
     return n
+
+
+def helper_closure(model, allowed):
+    """who-may-call rules: a *private* module-level helper shares its callers' permission when every reference to its name anywhere in the
+    package is a direct call from inside a permitted function (fixpoint).  A helper that is also called from elsewhere, handed around as a
+    value, or never called, gains nothing."""
+    allowed = set(allowed)
+    refs = {}           # helper qualname -> list of (referencing function qualname or None, is_direct_call)
+    helpers = {}
+    for m in model.modules.values():
+        for f in m.functions.values():
+            if f.name.startswith("_") and not f.name.startswith("__"):
+                helpers.setdefault(f.name, []).append(f)
+
+    def scan(owner, tree):
+        calls = set()
+        for n in _ast.walk(tree):
+            if isinstance(n, _ast.Call):
+                fn = n.func
+                nm = fn.id if isinstance(fn, _ast.Name) else fn.attr if isinstance(fn, _ast.Attribute) else None
+                if nm in helpers:
+                    calls.add(id(fn))
+        for n in _ast.walk(tree):
+            nm = n.id if isinstance(n, _ast.Name) else n.attr if isinstance(n, _ast.Attribute) else None
+            if nm in helpers and not (isinstance(n, _ast.Name) and isinstance(n.ctx, _ast.Store)):
+                for h in helpers[nm]:
+                    refs.setdefault(h.qualname, []).append((owner, id(n) in calls))
+    for m in model.modules.values():
+        fnodes = []
+        for f in list(m.functions.values()) + [f for c in m.classes.values() for f in list(c.methods.values()) + list(c.setters.values())]:
+            scan(f.qualname, f.node)
+            fnodes.append(f.node)
+        inside = {id(x) for fn_ in fnodes for x in _ast.walk(fn_)}
+        for st in m.tree.body:
+            if isinstance(st, (_ast.FunctionDef, _ast.AsyncFunctionDef, _ast.ClassDef, _ast.Import, _ast.ImportFrom)):
+                if isinstance(st, _ast.ClassDef):
+                    for x in st.body:
+                        if not isinstance(x, (_ast.FunctionDef, _ast.AsyncFunctionDef)):
+                            scan(None, x)
+                elif isinstance(st, (_ast.FunctionDef, _ast.AsyncFunctionDef)):
+                    for d in st.decorator_list:
+                        scan(None, d)
+                continue
+            scan(None, st)
+    changed = True
+    while changed:
+        changed = False
+        for q, rs in refs.items():
+            own = [r for r in rs if r[0] != q]        # recursion does not count either way
+            if q not in allowed and own and all(is_call and owner in allowed for owner, is_call in own):
+                allowed.add(q)
+                changed = True
+    return allowed
